@@ -43,6 +43,7 @@ type CommitEvent struct {
 // LightApp is a minimal deterministic BlockChainApp: it stores blocks, accepts any
 // block that extends its head, and reports every CommitBlock call.
 type LightApp struct {
+	mu       sync.RWMutex
 	id       int
 	genesis  *types.Block
 	blocks   map[uint64]*storedBlock
@@ -65,8 +66,14 @@ func (a *LightApp) head() *types.Block {
 	}
 	return a.blocks[a.height].block
 }
-func (a *LightApp) Height() uint64 { return a.height }
+func (a *LightApp) Height() uint64 {
+	a.mu.RLock()
+	defer a.mu.RUnlock()
+	return a.height
+}
 func (a *LightApp) LoadBlockMeta(height uint64) *types.BlockMeta {
+	a.mu.RLock()
+	defer a.mu.RUnlock()
 	sb := a.blocks[height]
 	if sb == nil {
 		return nil
@@ -74,6 +81,8 @@ func (a *LightApp) LoadBlockMeta(height uint64) *types.BlockMeta {
 	return types.NewBlockMeta(sb.block, sb.parts)
 }
 func (a *LightApp) LoadBlock(height uint64) *types.Block {
+	a.mu.RLock()
+	defer a.mu.RUnlock()
 	if height == 0 {
 		return a.genesis
 	}
@@ -83,20 +92,36 @@ func (a *LightApp) LoadBlock(height uint64) *types.Block {
 	return nil
 }
 func (a *LightApp) LoadBlockPart(height uint64, index int) *types.Part {
+	a.mu.RLock()
+	defer a.mu.RUnlock()
 	if sb := a.blocks[height]; sb != nil {
 		return sb.parts.GetPart(index)
 	}
 	return nil
 }
+
+// copyCommit returns a fresh Commit object: the real block store decodes a new object on every load, and
+// Commit caches derived fields lazily without synchronisation, so sharing one object between the reactor's
+// per-peer goroutines would manufacture a race the node cannot have.
+func copyCommit(c *types.Commit) *types.Commit {
+	if c == nil {
+		return nil
+	}
+	return &types.Commit{BlockID: c.BlockID, Precommits: append([]*types.Vote{}, c.Precommits...)}
+}
 func (a *LightApp) LoadBlockCommit(height uint64) *types.Commit {
+	a.mu.RLock()
+	defer a.mu.RUnlock()
 	if sb := a.blocks[height+1]; sb != nil {
-		return sb.block.LastCommit
+		return copyCommit(sb.block.LastCommit)
 	}
 	return nil
 }
 func (a *LightApp) LoadSeenCommit(height uint64) *types.Commit {
+	a.mu.RLock()
+	defer a.mu.RUnlock()
 	if sb := a.blocks[height]; sb != nil {
-		return sb.commit
+		return copyCommit(sb.commit)
 	}
 	return nil
 }
@@ -104,6 +129,8 @@ func (a *LightApp) GetValidators(height uint64) []*types.Validator            { 
 func (a *LightApp) GetRecoverValidators(height uint64) []*types.Validator     { return a.vals }
 func (a *LightApp) SetLastChangedVals(height uint64, vals []*types.Validator) {}
 func (a *LightApp) CreateBlock(height uint64, maxTxs int, gasLimit uint64, timeUnix uint64) *types.Block {
+	a.mu.Lock()
+	defer a.mu.Unlock()
 	if height != a.height+1 {
 		return nil
 	}
@@ -126,6 +153,8 @@ func (a *LightApp) CreateBlock(height uint64, maxTxs int, gasLimit uint64, timeU
 }
 func (a *LightApp) PreRunBlock(block *types.Block) {}
 func (a *LightApp) CheckBlock(block *types.Block) bool {
+	a.mu.RLock()
+	defer a.mu.RUnlock()
 	if block.Height != a.height+1 || block.ParentHash != a.head().Hash() {
 		return false
 	}
@@ -135,11 +164,13 @@ func (a *LightApp) CheckBlock(block *types.Block) bool {
 	return true
 }
 func (a *LightApp) CommitBlock(block *types.Block, blockParts *types.PartSet, seenCommit *types.Commit, fastsync bool) ([]*types.Validator, error) {
-	if block.Height != a.height+1 {
+	if block.Height != a.Height()+1 {
 		return nil, fmt.Errorf("lightapp: commit height %d on head %d", block.Height, a.height)
 	}
+	a.mu.Lock()
 	a.blocks[block.Height] = &storedBlock{block, blockParts, seenCommit}
 	a.height = block.Height
+	a.mu.Unlock()
 	if a.OnCommit != nil {
 		a.OnCommit(CommitEvent{Node: a.id, Height: block.Height, Hash: block.Hash(), Commit: seenCommit})
 	}
@@ -148,6 +179,8 @@ func (a *LightApp) CommitBlock(block *types.Block, blockParts *types.PartSet, se
 
 // Stored returns what the application stored for height h.
 func (a *LightApp) Stored(h uint64) (*types.Block, *types.PartSet, *types.Commit) {
+	a.mu.RLock()
+	defer a.mu.RUnlock()
 	if sb := a.blocks[h]; sb != nil {
 		return sb.block, sb.parts, sb.commit
 	}
@@ -208,21 +241,23 @@ type PoolMsg struct {
 }
 
 type Sim struct {
-	R                                                                           *rng.R
-	ChainID                                                                     string
-	Vals                                                                        []ValKey // all validators in genesis order (index = id)
-	ValSet                                                                      *types.ValidatorSet
-	Nodes                                                                       []*Node // correct nodes only (Node.ID indexes Vals)
-	NodeByID                                                                    map[int]*Node
-	Pool                                                                        []*PoolMsg
-	nextMsg                                                                     int
-	Scratch                                                                     string
-	Conf                                                                        Config
-	Steps                                                                       int
-	Trace                                                                       []string // decision log (replay aid, sample)
-	Mon                                                                         *Monitor
-	GenDoc                                                                      *types.GenesisDoc
-	lost                                                                        map[[2]int]bool
+	R        *rng.R
+	ChainID  string
+	Vals     []ValKey // all validators in genesis order (index = id)
+	ValSet   *types.ValidatorSet
+	Nodes    []*Node // correct nodes only (Node.ID indexes Vals)
+	NodeByID map[int]*Node
+	Pool     []*PoolMsg
+	nextMsg  int
+	Scratch  string
+	Conf     Config
+	Steps    int
+	Trace    []string // decision log (replay aid, sample)
+	Mon      *Monitor
+	GenDoc   *types.GenesisDoc
+	lost     map[[2]int]bool
+	// DropFilter, if set, makes matching (message, node) pairs undeliverable (scripted loss).
+	DropFilter                                                                  func(pm *PoolMsg, n *Node) bool
 	TimeoutsFired, StaleFired, Delivered, Dups, ByzActions, CatchUps, Regossips int
 }
 
@@ -529,6 +564,9 @@ func (s *Sim) deliverable() [][2]int {
 			if pm.Only != nil && !pm.Only[n.ID] {
 				continue
 			}
+			if s.DropFilter != nil && s.DropFilter(pm, n) {
+				continue
+			}
 			rs := n.CS.GetRoundState()
 			if pm.Height < rs.Height && !(pm.Kind == "precommit" && pm.Height+1 == rs.Height) {
 				continue // stale for this node: would be ignored anyway
@@ -647,11 +685,16 @@ func (s *Sim) byzIDs() []int {
 }
 
 func (s *Sim) signVote(id int, typ byte, h uint64, r int, bid types.BlockID) *types.Vote {
+	return s.signVoteTS(id, typ, h, r, bid, 0)
+}
+
+// signVoteTS signs the same vote content with a shifted timestamp: a different, equally valid signature.
+func (s *Sim) signVoteTS(id int, typ byte, h uint64, r int, bid types.BlockID, shift int) *types.Vote {
 	k := s.Vals[id]
 	addr := k.Priv.PubKey().Address()
 	idx, _ := s.ValSet.GetByAddress(addr)
 	v := &types.Vote{ValidatorAddress: addr, ValidatorIndex: idx, ValidatorSize: s.ValSet.Size(), Height: h, Round: r,
-		Timestamp: time.Unix(1569409200+int64(s.Steps), 0).UTC(), Type: typ, BlockID: bid}
+		Timestamp: time.Unix(1569409200+int64(s.Steps)+int64(shift)*100000, 0).UTC(), Type: typ, BlockID: bid}
 	sig, _ := k.Priv.Sign(v.SignBytes(s.ChainID))
 	v.Signature = sig
 	return v
@@ -730,7 +773,23 @@ func (s *Sim) byzAct() {
 	if s.R.Bool() {
 		typ = types.VoteTypePrecommit
 	}
-	switch a := s.R.Intn(10); {
+	switch a := s.R.Intn(12); {
+	case a >= 10: // re-count attempt: a peer claims +2/3 for X at the target (VoteSetMaj23, any peer may send it),
+		// the Byzantine validator's canonical vote there is for something else, and it then repeats its vote for X
+		// several times with fresh timestamps (fresh valid signatures). It must still count once.
+		x := pickID()
+		if x.IsZero() {
+			return
+		}
+		if rsv := ref.CS.GetRoundState(); rsv.Votes != nil && rsv.Height == h {
+			only := map[int]bool{ref.ID: true}
+			s.post(id, &cs.VoteMessage{Vote: s.signVote(id, typ, h, r, types.BlockID{})}, only, true)
+			rsv.Votes.SetPeerMaj23(r, typ, fmt.Sprintf("peer%d", id), x)
+			for k := 1; k <= 3; k++ {
+				s.post(id, &cs.VoteMessage{Vote: s.signVoteTS(id, typ, h, r, x, k)}, only, true)
+			}
+			s.Mon.count("byz_recount_attempts", 1)
+		}
 	case a < 4: // equivocate: two different votes to disjoint sets
 		b1, b2 := pickID(), pickID()
 		if b1.Equals(b2) {
